@@ -1,6 +1,7 @@
 //! Generators: genome cursor, valid-position sources, raw boards, strings.
 
 pub mod positions;
+pub mod raw;
 pub mod strings;
 
 /// Byte-genome decoder. Exhausted input reads as zeros, zero bytes map to the simplest choice,
